@@ -426,11 +426,228 @@ func ruleC11(c *Ctx) {
 	c.check(n16 >= 8, "P", "sum16-count", token.NoPos, fmt.Sprintf("%d 16-bit offset sums checked", n16))
 }
 
+// BV: offsets are read against the buffer they were recorded in. Every field of a parsed message holds positions in
+// PSIPMsg.Buf; RawMsg is a re-based view of the same bytes (Buf[msg.offs:end]) for the caller's convenience. A value
+// loaded from a RawMsg field (directly, through a slice expression or a phi) must not be handed to a function of the
+// package: they all interpret their []byte argument with Buf-relative offsets (PField.Get, the signature helpers, the
+// parsers), so the result would change — or the slice expression panic — as soon as the message does not start at
+// buf[0].
+func ruleBV(c *Ctx, rule string) {
+	var keys []string
+	for k := range c.Prog.SFuncs {
+		keys = append(keys, k)
+	}
+	sort.Strings(keys)
+	nFn, nLoads := 0, 0
+	for _, k := range keys {
+		fn := c.Prog.SFuncs[k]
+		if fn == nil {
+			continue
+		}
+		taint := map[ssa.Value]bool{}
+		var first token.Pos
+		for _, b := range fn.Blocks {
+			for _, ins := range b.Instrs {
+				if u, ok := ins.(*ssa.UnOp); ok && u.Op == token.MUL {
+					if fa, ok := u.X.(*ssa.FieldAddr); ok {
+						if sd := derefStruct(fa.X.Type()); sd != nil && sd.Field(fa.Field).Name() == "RawMsg" {
+							taint[u] = true
+							nLoads++
+							if !first.IsValid() {
+								first = u.Pos()
+							}
+						}
+					}
+				}
+			}
+		}
+		nFn++
+		if len(taint) == 0 {
+			continue
+		}
+		for changed := true; changed; {
+			changed = false
+			for _, b := range fn.Blocks {
+				for _, ins := range b.Instrs {
+					v, ok := ins.(ssa.Value)
+					if !ok || taint[v] {
+						continue
+					}
+					switch x := ins.(type) {
+					case *ssa.Slice:
+						if taint[x.X] {
+							taint[v], changed = true, true
+						}
+					case *ssa.Phi:
+						for _, e := range x.Edges {
+							if taint[e] {
+								taint[v], changed = true, true
+							}
+						}
+					case *ssa.ChangeType:
+						if taint[x.X] {
+							taint[v], changed = true, true
+						}
+					}
+				}
+			}
+		}
+		var bad []string
+		pos := first
+		for _, b := range fn.Blocks {
+			for _, ins := range b.Instrs {
+				call, ok := ins.(*ssa.Call)
+				if !ok {
+					continue
+				}
+				cal := call.Call.StaticCallee()
+				if cal == nil || cal.Pkg == nil || cal.Pkg.Pkg != c.Prog.Types {
+					continue
+				}
+				for _, a := range call.Call.Args {
+					if taint[a] {
+						bad = append(bad, ssaKey(cal)+" at "+c.Prog.pos(call.Pos()))
+						pos = call.Pos()
+					}
+				}
+			}
+		}
+		c.check(len(bad) == 0, rule, k+":RawMsg-not-a-base", pos, fmt.Sprintf("%s reads PSIPMsg.RawMsg; the re-based view is not passed to a package function that applies Buf-relative offsets to it (passed to: %v)", k, bad))
+	}
+	c.check(nFn >= 100, rule, "functions", token.NoPos, fmt.Sprintf("%d functions scanned for loads of RawMsg, %d loads (frozen minimum 100 functions)", nFn, nLoads))
+}
+
+// OW: saved positions stay inside their automaton. An unexported integer field that some function fills with a
+// non-constant value (a saved scan position: soffs, pstart/pend/vstart/vend, the message start, the header number of
+// the last value) is working storage of the functions that write it: they clear or overwrite it when the element
+// completes, so its content means something only between two of their own steps. It is read only by those writers, or
+// by a helper all of whose callers are (transitively) such writers. A wrapper that returns such a cell as "the offset
+// of the value" returns the offset-0 result, whatever the offset of the message.
+func ruleOW(c *Ctx) {
+	type cell struct{ tn, fld string }
+	writers := map[cell]map[string]bool{}
+	readers := map[cell]map[string]token.Pos{}
+	var keys []string
+	for k := range c.Prog.SFuncs {
+		keys = append(keys, k)
+	}
+	sort.Strings(keys)
+	cellOf := func(fa *ssa.FieldAddr) (cell, bool) {
+		sd := derefStruct(fa.X.Type())
+		if sd == nil {
+			return cell{}, false
+		}
+		f := sd.Field(fa.Field)
+		if f.Exported() || f.Pkg() != c.Prog.Types || !isIntType(f.Type()) {
+			return cell{}, false
+		}
+		tn := derefNamed(fa.X.Type()).String()
+		if i := strings.LastIndex(tn, "."); i >= 0 {
+			tn = tn[i+1:]
+		}
+		return cell{tn, f.Name()}, true
+	}
+	callers := map[string]map[string]bool{}
+	for _, k := range keys {
+		fn := c.Prog.SFuncs[k]
+		if fn == nil {
+			continue
+		}
+		for _, b := range fn.Blocks {
+			for _, ins := range b.Instrs {
+				switch x := ins.(type) {
+				case *ssa.Store:
+					if fa, ok := x.Addr.(*ssa.FieldAddr); ok {
+						if cl, ok := cellOf(fa); ok {
+							if _, isK := constIntOf(x.Val); !isK && !strings.HasPrefix(k, "init") {
+								if writers[cl] == nil {
+									writers[cl] = map[string]bool{}
+								}
+								writers[cl][k] = true
+							}
+						}
+					}
+				case *ssa.UnOp:
+					if fa, ok := x.X.(*ssa.FieldAddr); ok && x.Op == token.MUL {
+						if cl, ok := cellOf(fa); ok {
+							if readers[cl] == nil {
+								readers[cl] = map[string]token.Pos{}
+							}
+							if _, has := readers[cl][k]; !has {
+								readers[cl][k] = x.Pos()
+							}
+						}
+					}
+				case *ssa.Call:
+					if cal := x.Call.StaticCallee(); cal != nil && cal.Pkg != nil && cal.Pkg.Pkg == c.Prog.Types {
+						ck := ssaKey(cal)
+						if callers[ck] == nil {
+							callers[ck] = map[string]bool{}
+						}
+						callers[ck][k] = true
+					}
+				}
+			}
+		}
+	}
+	var cells []cell
+	for cl := range writers {
+		cells = append(cells, cl)
+	}
+	sort.Slice(cells, func(i, j int) bool {
+		if cells[i].tn != cells[j].tn {
+			return cells[i].tn < cells[j].tn
+		}
+		return cells[i].fld < cells[j].fld
+	})
+	n := 0
+	for _, cl := range cells {
+		allowed := map[string]bool{}
+		for w := range writers[cl] {
+			allowed[w] = true
+		}
+		for changed := true; changed; {
+			changed = false
+			for r := range readers[cl] {
+				if allowed[r] || len(callers[r]) == 0 {
+					continue
+				}
+				all := true
+				for cr := range callers[r] {
+					if !allowed[cr] {
+						all = false
+					}
+				}
+				if all {
+					allowed[r], changed = true, true
+				}
+			}
+		}
+		var rs []string
+		for r := range readers[cl] {
+			rs = append(rs, r)
+		}
+		sort.Strings(rs)
+		for _, r := range rs {
+			n++
+			var ws []string
+			for w := range writers[cl] {
+				ws = append(ws, w)
+			}
+			sort.Strings(ws)
+			c.check(allowed[r], "OW", fmt.Sprintf("%s.%s:read-in:%s", cl.tn, cl.fld, r), readers[cl][r], fmt.Sprintf("the saved position %s.%s is read in %s, which writes it or is called only from its writers %v", cl.tn, cl.fld, r, ws))
+		}
+	}
+	c.check(n >= 12, "OW", "instances", token.NoPos, fmt.Sprintf("%d (saved-position cell, reading function) pairs (frozen minimum 12)", n))
+}
+
 func init() {
 	register(&PropDef{
 		ID: "C11",
 		Rules: []Rule{
 			{"P", "kind analysis (dataflow to fixpoint on SSA) over every (buf, offs)-parametric function: values are constants, absolute positions (the offs parameter, len(buf), loop indices, offset results, positional fields) or scalars; a position may only be offset by constants/scalars, subtracted from a position (giving a length), compared with a position, used to index or slice the buffer, passed with the buffer, stored in positional fields or returned; comparisons position-vs-constant or position-vs-length, positions in multiplication/masks, positions leaking into non-positional outputs, constant or scalar buffer indices, field boundaries or returned offsets, and handing the whole buffer to a callee without a start offset are violations - by parametricity the outputs are then either shifted by k or unchanged", ruleC11},
+			{"BV", "offsets are applied to the buffer they were recorded in: no value loaded from PSIPMsg.RawMsg (the view re-based at the message start), directly or through slice expressions and phis, is passed to a function of the package — PField.Get, the signature helpers and the parsers all interpret their []byte argument with Buf-relative offsets", func(c *Ctx) { ruleBV(c, "BV") }},
+			{"OW", "saved positions stay inside their automaton: an unexported integer field that receives non-constant values (saved scan positions, the message start, the last header number) is read only by the functions that write it or by helpers called only from them; nothing else returns or uses such a cell, whose content is cleared or stale once the element completes", ruleOW},
 			{"M", "relocation of parsed URIs (the C18 rules M1, M2, M5): every component rebased identically, refusal without mutation", func(c *Ctx) { ruleM1(c); ruleM2(c); ruleM5(c) }},
 		},
 		Assumptions: []string{"16-bit field limit (65,535) as documented", "in-package (buf, offs) callees are analysed themselves"},
